@@ -363,3 +363,149 @@ func TestSubscriber(t *testing.T) {
 		runSubscriberGroup(t, without, false, false, tw, rw)
 	}
 }
+
+// TestSubscriberLate: K valid messages arrive while no verifier is registered — their validators park inside
+// verifyMessage — then SetVerifier registers a verifier that returns nil.  Every one of them is judged by that verifier:
+// accepted, delivered, relayed (SubscriberReg.tla: the field is published before the waiting validators are released).
+// Built with the race detector by the driver: its happens-before analysis of exactly this hand-over is the oracle for
+// PublishedBeforeRelease, whatever order the goroutines happened to run in.
+func TestSubscriberLate(t *testing.T) {
+	_, rw, tw := openIO(t)
+	defer rw.Close()
+	defer tw.Close()
+	const K = 24 // below the 32-message buffer of a pubsub subscription: a burst must not be dropped on the observing side
+	for round := 0; round < 3; round++ {
+		var recs []C11Rec
+		synctest.Test(t, func(t *testing.T) {
+			ctx, cancel := context.WithCancel(context.Background())
+			net, hosts := lineNet(t)
+			tr := &tracer{verdict: map[string]string{}, reason: map[string]string{}}
+			idFn := func(m *pubsub_pb.Message) string { return msgID(m) }
+			mk := func(h libhost.Host, opts ...pubsub.Option) *pubsub.PubSub {
+				opts = append(opts, pubsub.WithMessageSignaturePolicy(pubsub.StrictNoSign), pubsub.WithMessageIdFn(idFn))
+				ps, err := pubsub.NewGossipSub(ctx, h, opts...)
+				if err != nil {
+					t.Fatal(err)
+				}
+				return ps
+			}
+			psP := mk(hosts[0])
+			psS := mk(hosts[1], pubsub.WithRawTracer(tr))
+			psD := mk(hosts[2])
+			topicID := p2p.PubsubTopicID(networkID)
+			sub, err := p2p.NewSubscriber[*vh.Header](psS, idFn, p2p.WithSubscriberNetworkID(networkID))
+			if err != nil {
+				t.Fatal(err)
+			}
+			if err := sub.Start(ctx); err != nil {
+				t.Fatal(err)
+			}
+			subscription, err := sub.Subscribe()
+			if err != nil {
+				t.Fatal(err)
+			}
+			topicP, err := psP.Join(topicID)
+			if err != nil {
+				t.Fatal(err)
+			}
+			subP, _ := topicP.Subscribe()
+			_ = subP
+			topicD, err := psD.Join(topicID)
+			if err != nil {
+				t.Fatal(err)
+			}
+			subD, err := topicD.Subscribe()
+			if err != nil {
+				t.Fatal(err)
+			}
+			time.Sleep(5 * time.Second)
+			synctest.Wait()
+			formed := func() bool {
+				tr.mu.Lock()
+				defer tr.mu.Unlock()
+				return tr.mesh[hosts[0].ID()] && tr.mesh[hosts[2].ID()] && len(topicP.ListPeers()) >= 1
+			}
+			for k := 0; k < 120 && !formed(); k++ {
+				time.Sleep(time.Second)
+				synctest.Wait()
+			}
+			if !formed() {
+				t.Fatal("harness: gossipsub mesh did not form")
+			}
+			var dmu sync.Mutex
+			relayed := map[string]bool{}
+			go func() {
+				for {
+					m, err := subD.Next(ctx)
+					if err != nil {
+						return
+					}
+					dmu.Lock()
+					relayed[msgID(m.Message)] = true
+					dmu.Unlock()
+				}
+			}()
+			chain := vh.NewChain(networkID, 1, K+5, time.Now().Add(-time.Hour), time.Second, 0)
+			var mids []string
+			var hdrs []*vh.Header
+			for i := 0; i < K; i++ {
+				hdr := chain.At(uint64(i + 2)).Clone()
+				data, _ := hdr.MarshalBinary()
+				_ = topicP.Publish(ctx, data)
+				s := sha256.Sum256(data)
+				mids = append(mids, string(s[:]))
+				hdrs = append(hdrs, hdr)
+			}
+			synctest.Wait() // every validator is parked on the semaphore
+			var gmu sync.Mutex
+			got := map[string]*vh.Header{}
+			go func() {
+				for {
+					h, err := subscription.NextHeader(ctx)
+					if err != nil {
+						return
+					}
+					gmu.Lock()
+					got[h.Hash().String()] = h
+					gmu.Unlock()
+				}
+			}()
+			_ = sub.SetVerifier(func(ctx context.Context, h *vh.Header) error {
+				_ = h.Hash()
+				return nil
+			})
+			synctest.Wait()
+			time.Sleep(3 * time.Second)
+			synctest.Wait()
+			gmu.Lock()
+			defer gmu.Unlock()
+			for i := 0; i < K; i++ {
+				obs := C11Obs{Verdict: "none"}
+				tr.mu.Lock()
+				if v, ok := tr.verdict[mids[i]]; ok {
+					obs.Verdict, obs.Reason = v, tr.reason[mids[i]]
+				}
+				tr.mu.Unlock()
+				if h := got[hdrs[i].Hash().String()]; h != nil {
+					obs.Delivered = true
+					obs.DeliveredRight = h.Height() == hdrs[i].Height() && h.Clone().Hash().String() == hdrs[i].Hash().String()
+				}
+				dmu.Lock()
+				obs.Relayed = relayed[mids[i]]
+				dmu.Unlock()
+				obs.Final = obs.Verdict
+				recs = append(recs, C11Rec{Tr: 900000 + round*1000 + i, In: map[string]any{"payload": "valid", "verifier": "nil", "late": true}, Obs: obs})
+			}
+			subscription.Cancel()
+			_ = sub.Stop(ctx)
+			cancel()
+			_ = net.Close()
+			time.Sleep(time.Second)
+			synctest.Wait()
+		})
+		for _, r := range recs {
+			tw.Put(r)
+			rw.Put(mbt.Result{ID: r.Tr, Key: fmt.Sprint(r.Tr), NonTriv: true, Verdict: "ok"})
+		}
+	}
+}
